@@ -17,6 +17,7 @@ CONSTANTS
   Warm = 1
   ClassSet = {"import", "startrows", "startgroup", "page"}
   LeafKinds = {"row"}
+  Script = "none"
 INIT Init
 NEXT Next
 VIEW MView
